@@ -39,7 +39,7 @@ import (
 //     model of the pointer.
 
 const (
-	c19Set    = 3
+	c19Set    = 1 // below n: aliases with a keyper index
 	c19Limit  = 1_000_000
 	c19MaxAge = 2
 )
